@@ -270,11 +270,15 @@ def run(check, an: Analysis):
                        'every entry|yield -> yield segment contains a MUST suspension',
                        path=lines, analysed=len(an.paths(callee)))
     # ---- P ------------------------------------------------------------------
-    from . import _scope, c03, c15
+    from . import _scope, c01, c03, c15
     c03._check_signal_lifecycles(
         check, an, _scope.wrapper_callee(an), rule='P',
         only=lambda fn, cls: fn.cls is None and fn.module.name == 'usim._primitives.notification')
     c15.check_assign_restores(check, an, 'P')
+    # ticks are exact: the clock is the start time and then the queued dates as given
+    # (no conversion that would put later dates on another number grid)
+    c01.check_clock_writers(check, an, 'A')
+    c01.check_schedule_keys(check, an, 'A')
     handler_cls = an.cls(c15.HANDLER)
     check.instance('P', 'StateHandler:threading.local',
                    'ext:threading.local' in handler_cls.mro,
